@@ -81,11 +81,52 @@ type Cluster struct {
 	Stats        map[string]int
 	lastCanon    []string
 	NotifyIntv   time.Duration
+	gateMu       sync.Mutex
+	gate         map[int]chan struct{} // per node: while set, the node's key workers wait inside Decode
+}
+
+// gatedCodec lets the harness hold a node's key worker inside the decoding of a received value, so that
+// further messages for the key pile up behind it (a burst of messages, a worker that lags behind).
+type gatedCodec struct {
+	codec.Codec
+	c    *Cluster
+	node int
+}
+
+func (g gatedCodec) Decode(b []byte) (interface{}, error) {
+	g.c.gateMu.Lock()
+	ch := g.c.gate[g.node]
+	g.c.gateMu.Unlock()
+	if ch != nil {
+		<-ch
+	}
+	return g.Codec.Decode(b)
+}
+
+// Burst hands several gossip messages to node `to` back to back: the node's worker is held inside the
+// decoding of the first while the others queue up behind it, then let go.
+func (c *Cluster) Burst(ws []*Wire, to int) {
+	ch := make(chan struct{})
+	c.gateMu.Lock()
+	c.gate[to] = ch
+	c.gateMu.Unlock()
+	c.Nodes[to].NotifyMsg(ws[0].Data)
+	vx.Wait()
+	for _, w := range ws[1:] {
+		c.Nodes[to].NotifyMsg(w.Data)
+	}
+	c.gateMu.Lock()
+	delete(c.gate, to)
+	c.gateMu.Unlock()
+	close(ch)
+	vx.Wait()
+	c.Stats["deliveries"] += len(ws)
+	c.Stats["bursts"]++
 }
 
 // NewCluster starts n detached nodes inside the current bubble.
 func NewCluster(b *vx.B, n int, cfg func(*memberlist.KVConfig)) *Cluster {
-	c := &Cluster{N: n, Cfg: cfg, blocked: map[[2]int]bool{}, Stats: map[string]int{}}
+	c := &Cluster{N: n, Cfg: cfg, blocked: map[[2]int]bool{}, Stats: map[string]int{}, gate: map[int]chan struct{}{}}
 	c.Nodes = make([]*memberlist.KV, n)
 	c.RingC = make([]*memberlist.Client, n)
 	c.PRingC = make([]*memberlist.Client, n)
@@ -116,7 +157,7 @@ func NewCluster(b *vx.B, n int, cfg func(*memberlist.KVConfig)) *Cluster {
 func (c *Cluster) startNode(i int) {
 	var cfg memberlist.KVConfig
 	flagext.DefaultValues(&cfg)
-	cfg.Codecs = []codec.Codec{ring.GetCodec(), ring.GetPartitionRingCodec()}
+	cfg.Codecs = []codec.Codec{gatedCodec{ring.GetCodec(), c, i}, gatedCodec{ring.GetPartitionRingCodec(), c, i}}
 	cfg.RetransmitMult = 2
 	cfg.LeftIngestersTimeout = 24 * time.Hour
 	if c.Cfg != nil {
